@@ -190,7 +190,8 @@ G8Roots == {<<A0("R"), A0("Un")>>, <<A0("R"), P_Adt("G", <<A0("Q")>>), A0("W")>>
 G8(z) == {[fam |-> "G8", prog |-> G8Prog, roots |-> r] : r \in G8Roots}
 \* CompactAs eligibility: single-field wrappers over every primitive, named / unnamed / boxed / compact / two fields / enum
 G8bDefs(p) == <<Struct("Wn", Mod, <<>>, <<SField("v", p)>>), Struct("Wu", Mod, <<>>, <<SField("", p)>>), Struct("Wb", Mod, <<>>, <<SField("v", P_Box(p))>>),
-                Struct("W2", Mod, <<>>, <<SField("v", p), SField("w", p)>>), Enum("We", Mod, <<>>, <<Variant("A", 0, <<SField("", p)>>)>>),
+                Struct("W2", Mod, <<>>, <<SField("v", p), SField("w", p)>>), Struct("Wu2", Mod, <<>>, <<SField("", p), SField("", bool)>>),
+                Enum("We", Mod, <<>>, <<Variant("A", 0, <<SField("", p)>>), Variant("P", 1, <<SField("", p), SField("", bool)>>), Variant("N", 2, <<SField("amount", p)>>)>>),
                 Struct("Wg", Mod, <<Param("T")>>, <<SField("v", T)>>), Struct("Wph", Mod, <<Param("T")>>, <<SField("v", p), SField("m", P_Phantom(T))>>),
                 Struct("Wcow", Mod, <<>>, <<SField("v", P_Cow(p))>>), Struct("Wgu", Mod, <<Param("T")>>, <<SField("", T)>>)>>
               \o (IF p \in UnsignedLeaves THEN <<Struct("Wc", Mod, <<>>, <<CField("v", p)>>), Struct("Wct", Mod, <<>>, <<SField("v", P_Compact(p))>>)>> ELSE <<>>)
